@@ -452,6 +452,22 @@ class Evaluator:
                     continue
             if not broke:
                 self.run(s.orelse)
+        elif isinstance(s, ast.While) and self.loops:
+            rounds = 0
+            broke = False
+            while self.truth(s.test):
+                rounds += 1
+                if rounds > 64:
+                    raise Unknown("while loop does not terminate within 64 rounds in the model")
+                try:
+                    self.run(s.body)
+                except _Break:
+                    broke = True
+                    break
+                except _Continue:
+                    continue
+            if not broke:
+                self.run(s.orelse)
         elif isinstance(s, ast.Break) and self.loops:
             raise _Break()
         elif isinstance(s, ast.Continue) and self.loops:
